@@ -681,6 +681,9 @@ func registerEnvIntrinsics() {
 		okv := in.tt.Var(fmt.Sprintf("filter%d.ok", in.filterSeq), BoolSort)
 		in.path.inputs = append(in.path.inputs, InputVar{Name: okv.name, Kind: "bool", T: okv})
 		var r Value
+		if in.summaries["filterOK"] {
+			in.assume(okv) // the harness states that this filter is well formed
+		}
 		if in.branch(boolVal(okv), "DecompileFilter") {
 			s := in.inputStr(fmt.Sprintf("filter%d.text", in.filterSeq))
 			in.emit("filter", key)
